@@ -182,7 +182,9 @@ RunDefers(ds, w) == IF ds = <<>> \/ Panicked(w) THEN w ELSE RunDefers(Tail(ds), 
 \*   rfunc     for v := range rt.Seq3 { Yield(v) }                                 (yields 1, 2, 3)
 \*   rtparam   for _, v := range ts { Yield(v) }   with ts of a type-parameter type ~[]int holding 10, 20, 30
 \* Negative controls, inside a closure nested in the generator (no yield inside; must be accepted):
-\*   clo-lbreak clo-goto clo-select clo-defer clo-rfunc clo-rparr clo-fall
+\*   clo-lbreak clo-goto clo-select clo-defer clo-rfunc clo-rparr clo-fall clo-selbrk
+\*   clo-lrange  func() { L: for _, v := range []int{10, 20} { for r.T(id) { r.E(id+1, v, 0); continue L }; r.E(id+2, v, 0) } }()
+\* (lrange is the same labelled range loop in the generator itself with Yield(v) in place of r.E(id+1, v, 0))
 \* and a SUPPORTED shape used by C13 (a three-clause loop inside a nested closure whose variable is captured by
 \* closures outliving the iteration: per-iteration variables of go >= 1.22 must be preserved there):
 \*   clo-loopvar  func() { var fs []func() int; for i := 0; i < 3; i++ { fs = append(fs, func() int { return i }) };
@@ -211,6 +213,9 @@ Desugar(s) ==
     [] s.u = "rparr"  -> <<URange("parray", id, <<[k |-> "effkv", id |-> id], UY(UVar("v")), [k |-> "mut", op |-> "aset", j |-> 2]>>)>>
     [] s.u = "rfunc"  -> <<UY(ULit(1)), UY(ULit(2)), UY(ULit(3))>>
     [] s.u = "rtparam" -> <<UY(ULit(10)), UY(ULit(20)), UY(ULit(30))>>
+    [] s.u = "lrange"  -> <<UIf(id, <<UY(ULit(10))>>, <<UEffX(id + 2, ULit(10))>>), UIf(id, <<UY(ULit(20))>>, <<UEffX(id + 2, ULit(20))>>)>>
+    [] s.u = "clo-lrange" -> <<UIf(id, <<UEffX(id + 1, ULit(10))>>, <<UEffX(id + 2, ULit(10))>>), UIf(id, <<UEffX(id + 1, ULit(20))>>, <<UEffX(id + 2, ULit(20))>>)>>
+    [] s.u = "clo-selbrk" -> <<UIf(id, <<>>, <<UEffX(id + 1, ULit(7))>>)>>
     [] s.u = "clo-lbreak" -> <<UFor("L", id, <<UFor("", id + 1, <<UEff(id + 2), [k |-> "lbreak", lab |-> "L"]>>)>>)>>
     [] s.u = "clo-goto"   -> <<UIf(id, <<>>, <<UEff(id + 1)>>), UEff(id + 2)>>
     [] s.u = "clo-select" -> <<UEffX(id, ULit(7))>>
@@ -220,7 +225,7 @@ Desugar(s) ==
     [] s.u = "clo-loopvar" -> <<UEffX(id, ULit(0)), UEffX(id, ULit(1)), UEffX(id, ULit(2))>>
     [] s.u = "clo-fall"   -> <<[k |-> "switch", init |-> None, form |-> "tag", c |-> UT(id),
                                 cases |-> <<UCase("t", <<UEff(id + 1)>>, TRUE), UCase("d", <<UEff(id + 2)>>, FALSE)>>]>>
-UnsupYields(u) == u \in {"lbreak", "lcont", "goto", "select", "fallyield", "ifinit", "rparr", "rfunc", "rtparam"}
+UnsupYields(u) == u \in {"lbreak", "lcont", "goto", "select", "fallyield", "ifinit", "rparr", "rfunc", "rtparam", "lrange"}
 
 \* ---------------------------------------------------------------- the interpreter
 \* Run(i, w): run coroutine i to its next yield / end / panic:  [st, w]
@@ -285,7 +290,7 @@ Run(i, w) ==
       [] s.k = "effkk" -> Run(i, SetK(Log(w, <<"e", s.id, Get(w, env, "kk"), Get(w, env, "vv")>>), i, k1))
       [] s.k = "effw"  -> Run(i, SetK(Log(w, <<"e", s.id>> \o SubSeq(c.heap.w, 1, 5)), i, k1))
       [] s.k = "mut"   -> Run(i, [SetK(w, i, k1) EXCEPT !.cos[i].heap = Mutate(s, c.heap)])
-      [] s.k = "range" -> \* the range expression is evaluated exactly once (xf = "call": through a logging closure)
+      [] s.k = "range" -> \* the range expression is evaluated exactly once (xf = "call": through a logging closure; xf = "named": converted to a named type, no effect)
                           LET w1 == IF s.xf = "call" THEN Log(w, <<"x", s.id, 0>>) ELSE w IN
                           IF Panicked(w1) THEN [st |-> "panic", w |-> w1]
                           ELSE Run(i, SetK(w1, i, <<[t |-> "range", s |-> s, st |-> RangeStart(s, c.heap, w.flags), env |-> env]>> \o k1))
